@@ -46,10 +46,24 @@ const c44 = "C44"
 // Known-finding signatures (proposed; see the report): state of v1 channel ALIASES is not
 // part of the exported IBC genesis.
 const (
-	sigAliasMapping      = "alias-mapping-not-exported"          // key  <channel-id>"alias"
-	sigAliasCounterparty = "alias-counterparty-not-exported"     // key  clients/<channel-id>/counterparty
-	sigAliasPacketState  = "alias-v2-packet-state-not-exported"  // keys <channel-id>{0x01,0x02,0x03}<seq>, <channel-id>"async_packet"<seq>
+	sigAliasMapping      = "alias-mapping-not-exported"         // key  <channel-id>"alias"
+	sigAliasCounterparty = "alias-counterparty-not-exported"    // key  clients/<channel-id>/counterparty
+	sigAliasPacketState  = "alias-v2-packet-state-not-exported" // keys <channel-id>{0x01,0x02,0x03}<seq>, <channel-id>"async_packet"<seq>
 )
+
+// sigEqualCounterparty: the exported clientv2 genesis contains a counterparty whose client id
+// equals the local client id (legal and common: both chains call their first client
+// 07-tendermint-0) and GenesisState.Validate() / clientv2.InitGenesis reject exactly that.
+const sigEqualCounterparty = "v2-counterparty-equal-client-id-rejected"
+
+func hasEqualCounterpartyID(g *ibctypes.GenesisState) bool {
+	for _, ci := range g.ClientV2Genesis.CounterpartyInfos {
+		if ci.ClientId == ci.CounterpartyInfo.ClientId {
+			return true
+		}
+	}
+	return false
+}
 
 // genModule is one module with an ExportGenesis / InitGenesis pair.
 type genModule struct {
@@ -302,7 +316,11 @@ func roundTrip(t rapid.TB, rec *vx.Case, where string, ctx sdk.Context, app *sim
 		return res
 	}
 	if err != nil {
-		vx.Violatef(t, rec, c44, m.name+":export-invalid", "%s: exported %s genesis does not survive JSON decoding + Validate(): %v\n%s", where, m.name, err, clip(js))
+		sig := m.name + ":export-invalid"
+		if g, ok := gs.(*ibctypes.GenesisState); ok && g != nil && hasEqualCounterpartyID(g) {
+			sig = sigEqualCounterparty
+		}
+		vx.Violatef(t, rec, c44, sig, "%s: exported %s genesis does not survive JSON decoding + Validate(): %v\n%s", where, m.name, err, clip(js))
 		return res
 	}
 	wipeModule(ctx, app, m.store, pre)
@@ -393,6 +411,10 @@ func genC44(t *rapid.T) c44Case {
 		c.Extras.RateLimit = rapid.Bool().Draw(t, "ratelimit")
 	}
 	c.Extras.ICA = rapid.IntRange(0, 2).Draw(t, "ica") == 0
+	if c.Extras.Transfer {
+		c.Extras.PFM = rapid.Bool().Draw(t, "pfm")
+	}
+	c.Extras.GMP = rapid.IntRange(0, 2).Draw(t, "gmp")
 	c.ExportAt = rapid.IntRange(0, len(c.H.Ops)).Draw(t, "exportAt")
 	c.Chains = rapid.IntRange(0, 2).Draw(t, "chains")
 	c.Continue = rapid.IntRange(0, 2).Draw(t, "continue") > 0
@@ -488,7 +510,7 @@ func summarize(w *sim.World, steps []string) outcome {
 // runHistory executes the case in a fresh world. importAt < 0: control run (an empty block
 // is committed where the other run re-imports, to keep the clocks aligned).
 func runHistory(outer *testing.T, t rapid.TB, rec *vx.Case, c c44Case, doImport, checkEvery bool, knownSeen map[string]string) (outcome, bool) {
-	w := newWorld(outer, c.H, defaultCreator())
+	w := newWorld(outer, c.H, defaultCreator(), true)
 	addExtras(w, c.Extras)
 	at := pktsim.Pick(len(c.H.Ops)+1, c.ExportAt)
 	chains := []int{0, 1}
@@ -587,6 +609,12 @@ func extrasLabel(e Extras) string {
 	if e.ICA {
 		s = append(s, "ica")
 	}
+	if e.PFM {
+		s = append(s, "pfm")
+	}
+	if e.GMP != 0 {
+		s = append(s, fmt.Sprintf("gmp%d", e.GMP))
+	}
 	if len(s) == 0 {
 		return "none"
 	}
@@ -610,3 +638,86 @@ func TestC44(t *testing.T) {
 }
 
 var _ = json.Marshal
+
+// ---- deterministic re-demonstration of the recorded findings ---------------------------
+
+type c44Known struct {
+	Variant int `json:"variant"` // 0: alias state of an UNORDERED v1 channel, 1: v2 client pair with equal client ids
+}
+
+func runC44Known(outer *testing.T) func(t rapid.TB, c c44Known, rec *vx.Case) {
+	return func(t rapid.TB, c c44Known, rec *vx.Case) {
+		rec.NonTrivial()
+		switch c.Variant {
+		case 0:
+			rec.Class("known:alias-state")
+			h := pktsim.History{Links: []int{int(sim.V1Unordered), int(sim.V2Alias)}}
+			w := newWorld(outer, h, defaultCreator(), true)
+			send := func(n int, dir int, out string) pktsim.Step {
+				return pktsim.Exec(w, n, pktsim.Op{K: "send", L: 1, D: dir, S: []sim.Script{{N: n, Out: out}}, App: []string{"A"}})
+			}
+			// A->B: one async receive (receipt + async packet on B), one acknowledged on B only
+			// (receipt + ack on B, commitment on A), one never relayed (commitment on A)
+			s0, s1, s2 := send(0, 0, "async"), send(1, 0, "ok"), send(2, 0, "ok")
+			if !s0.Sent || !s1.Sent || !s2.Sent {
+				vx.Harnessf("alias sends failed: %v %v %v", s0.Res.Err, s1.Res.Err, s2.Res.Err)
+			}
+			for n, p := range []int{s0.Pkt.Idx, s1.Pkt.Idx} {
+				if st := pktsim.Exec(w, 3+n, pktsim.Op{K: "recv", P: p, H: -1}); !st.Res.OK {
+					vx.Harnessf("alias recv failed: %v", st.Res.Err)
+				}
+			}
+			lost := map[string][]string{}
+			for i := range w.Chains {
+				ctx, _ := w.Ctx(i).CacheContext()
+				r := roundTrip(t, rec, fmt.Sprintf("known-case chain %d", i), ctx, w.App(i), genModules[0], false)
+				for sig, ks := range r.lostKnown {
+					for _, k := range ks {
+						lost[sig] = append(lost[sig], fmt.Sprintf("chain %d: %q", i, k))
+					}
+				}
+			}
+			// consequence on the live state: re-import chain B for real, then relay the packet that
+			// was in flight at export time
+			consequence := "n/a"
+			if len(lost) > 0 {
+				roundTrip(t, rec, "known-case live re-import chain 1", w.Ctx(1), w.App(1), genModules[0], false)
+				w.Block(1, 1)
+				st := pktsim.Exec(w, 9, pktsim.Op{K: "recv", P: s2.Pkt.Idx, H: -1})
+				consequence = fmt.Sprintf("after re-importing chain B from its own export, receiving the in-flight packet %s: ok=%v err=%v", s2.Pkt, st.Res.OK, st.Res.Err)
+				if st.Res.OK {
+					rec.Class("known:alias-inflight-still-deliverable")
+				} else {
+					rec.Class("known:alias-inflight-undeliverable-after-import")
+				}
+			}
+			for _, sig := range []string{sigAliasMapping, sigAliasCounterparty, sigAliasPacketState} {
+				if ks := lost[sig]; len(ks) > 0 {
+					vx.Violatef(t, rec, c44, sig, "wipe + ibc.InitGenesis(ibc.ExportGenesis()) does not reproduce %d key(s) of the IBC store, e.g. %v; %s", len(ks), ks[:min(3, len(ks))], consequence)
+				} else {
+					rec.Class("known:not-reproduced:" + sig)
+				}
+			}
+		case 1:
+			rec.Class("known:equal-client-ids")
+			w := newWorld(outer, pktsim.History{Links: []int{int(sim.V2Clients)}}, defaultCreator(), false)
+			l := w.Links[0]
+			if l.Client(0) != l.Client(1) {
+				vx.Harnessf("expected equal client ids, got %s / %s", l.Client(0), l.Client(1))
+			}
+			ctx, _ := w.Ctx(0).CacheContext()
+			roundTrip(t, rec, "known-case (client "+l.Client(0)+" on both chains)", ctx, w.App(0), genModules[0], false)
+		}
+	}
+}
+
+func TestC44Known(t *testing.T) {
+	vx.Check(t, vx.Prop[c44Known]{
+		ID:   c44,
+		Rule: "deterministic re-demonstration of the recorded C44 findings (variant 0: alias state of an UNORDERED channel with v2-over-alias packets; variant 1: v2 client pair with equal client ids); always non-trivial",
+		Gen: func(t *rapid.T) c44Known {
+			return c44Known{Variant: rapid.IntRange(0, 1).Draw(t, "variant")}
+		},
+		Run: runC44Known(t),
+	})
+}
